@@ -111,6 +111,24 @@ pub fn check(c: &Call, probe: &MCTPSMBusContext, rep: &mut Report) {
             break;
         }
     }
+    // the probe must not depend on who asks: contexts that ARE the packet's source / destination
+    // (address and both EID cells taken from the packet) must answer the same
+    {
+        use libmctp::mctp_traits::SMBusMCTPRequestResponse;
+        for (addr, eid) in [(pkt[3] >> 1, pkt[6]), (pkt[0] >> 1, pkt[5]), (pkt[3] >> 1, pkt[3] >> 1)] {
+            let cc = CtxCfg::simple(addr);
+            let got = crate::libapi::with_ctx(&cc, |c| {
+                c.get_request().set_eid(eid);
+                c.get_response().set_eid(eid);
+                get_length(c, pkt)
+            });
+            probe_evals += 1;
+            if got != LenOut::Ok(n) {
+                bad("length-probe", format!("get_length(whole packet) on a context with address {:#04x} and EID {:#04x} = {} but the encoder reported {}", addr, eid, got.brief(), n));
+                break;
+            }
+        }
+    }
     rep.evals(probe_evals);
     if rep.want_sample() {
         rep.sample(|| sample_json(c, &obs));
